@@ -30,6 +30,24 @@ from harness.fw import Check, Driver, ToolFailure, REPO, hexs
 PROP = "C35"
 ROOT = os.path.dirname(os.path.dirname(os.path.dirname(os.path.abspath(__file__))))
 CORPUS = os.path.join(ROOT, "corpus", PROP)
+AX, DX, AP = "androguard/core/axml/__init__.py", "androguard/core/dex/__init__.py", "androguard/core/apk/__init__.py"
+PINS = [
+    ("androguard/core/dex/__init__.py", "read_null_terminated_string"),
+    ("androguard/core/dex/__init__.py", "HiddenApiClassDataItem.__init__"),
+    ("androguard/core/dex/__init__.py", "DebugInfoItem.__init__"),
+    ("androguard/core/dex/__init__.py", "MapList.__init__"),
+    ("androguard/core/axml/__init__.py", "ARSCHeader.__init__"),
+    ("androguard/core/axml/__init__.py", "AXMLParser._do_next"),
+    ("androguard/core/axml/__init__.py", "AXMLPrinter.__init__"),
+    ("androguard/core/axml/__init__.py", "ARSCParser.__init__"),
+    ("androguard/core/axml/__init__.py", "AXMLPrinter._fix_name"),
+    ("androguard/core/axml/__init__.py", "AXMLPrinter._fix_value"),
+    ("androguard/core/apk/__init__.py", "APK.get_dex_names"),
+    ("androguard/core/apk/__init__.py", "APK.is_multidex"),
+    ("androguard/core/apk/__init__.py", "APK.x509_ordered_name"),
+    ("androguard/core/apk/__init__.py", "APK.get_signature_names"),
+    ("androguard/core/apk/__init__.py", "APK.get_signatures"),
+]
 BASE_LIMIT = 10.0           # seconds of CPU
 PER_BYTE = 1.0 / 20000      # + 1 s per 20 kB
 
@@ -67,9 +85,11 @@ def p_apk(data):
     from androguard.core import apk
     a = apk.APK(data, raw=True)
     for fn in ("is_signed_v2", "is_signed_v3", "get_certificates_der_v2", "get_certificates_der_v3",
-               "get_android_resources"):
+               "get_android_resources", "get_dex_names", "is_multidex", "get_signature_names"):
         try:
-            getattr(a, fn)()
+            r = getattr(a, fn)()
+            if fn == "get_dex_names":
+                list(r)
         except CpuTimeout:
             raise
         except Exception:  # noqa
@@ -298,6 +318,71 @@ def shipped(ck):
         for k in apks[12:]:
             del out[k]
     return out
+
+
+# ------------------------------------------------------------------ pathological names (regex engines)
+PATHO_UNITS = list(".-_:/$ ") + list("0123456789") + [".-", "-.", "._", "a.", "a-", "1.", "/.", "$_", " -"]
+PATHO_SUFFIX = [" ", ":", "!", "\u00e9", "\n", "/", "\u20ac"]
+
+
+def patho_names(ck, big):
+    """(spec, string): a run of k repeated separator / class-boundary characters followed, somewhere later, by a
+    character outside the usual name classes — the shape on which an ambiguous regex backtracks 2^k times"""
+    rng = random.Random(f"C35-patho/{ck.seed}")
+    out = []
+    for unit in PATHO_UNITS:
+        for k in (20, 28, 40, 64):
+            for prefix in ("", "x"):
+                sufs = PATHO_SUFFIX if big else rng.sample(PATHO_SUFFIX, 3)
+                for suf in sufs:
+                    tail = rng.choice(("", "y"))
+                    reps = (k + len(unit) - 1) // len(unit)
+                    out.append(({"prefix": prefix, "unit": unit, "k": k, "suffix": suf + tail},
+                                prefix + (unit * reps)[:k] + suf + tail))
+    rng.shuffle(out)
+    return out
+
+
+def patho_doc(kind, name):
+    """a generated input of the given kind in which `name` is placed wherever a parser applies a regex (and more)"""
+    if kind == "axml":
+        from harness import axmlwriter as W
+        root = W.Element("manifest", children=[
+            W.Element(name, attrs=[W.Attr(None, name, W.S(name)), W.Attr("http://schemas.android.com/apk/res/android", "name", W.S(name))],
+                      children=[W.Text(name)])])
+        return W.encode_axml(root)
+    if kind == "apk":
+        from harness import zipwriter as Z
+        entries = [("AndroidManifest.xml", patho_doc("axml", name), False), (name, b"x", False),
+                   ("classes" + name + ".dex", b"", False), ("META-INF/" + name + ".RSA", b"", False),
+                   ("META-INF/" + name, b"", False)]
+        return Z.write_zip(entries)
+    if kind == "arsc":
+        from harness import arscwriter as R
+        t = R.ResType("string", 1, [R.TypeChunk(R.Config(), {0: R.Entry(name, "simple", R.Str(name))}, "plain")])
+        return R.encode_arsc(R.ResTable([R.Package(0x7F, name[:100], [t])]))
+    if kind == "dex":
+        from harness import dexasm as A
+        b = A.DexBuilder()
+        b.extra_strings.append(name)
+        b.add_class("L" + name + ";", instance_fields=[A.Field(name, "I", 1)], virtual_methods=[A.Method(name, "V", (), 1, None)])
+        return b.build()
+    raise ValueError(kind)
+
+
+def patho_tasks(ck, big):
+    tasks, meta, skipped = [], [], 0
+    for i, (spec, name) in enumerate(patho_names(ck, big)):
+        kinds = ["axml"] + (["apk"] if i % 6 == 0 or big else []) + (["arsc", "dex"] if i % 25 == 0 else [])
+        for kind in kinds:
+            try:
+                data = patho_doc(kind, name)
+            except Exception:  # noqa  (a writer that refuses the name)
+                skipped += 1
+                continue
+            tasks.append((kind, data, cpu_limit(len(data))))
+            meta.append({"kind": kind, "base": "patho", "patho": spec, "name": "patho:" + repr(name)[:60]})
+    return tasks, meta, skipped
 
 
 def chunk(t, hs, size, body=b""):
@@ -646,13 +731,17 @@ def tie(ck, drv):
 
 # ------------------------------------------------------------------ run
 def run(ck: Check):
+    ck.pins_changed(PINS)                  # sets ck.escalated (not a verdict): larger streams below
+    big = (not ck.quick) or getattr(ck, "escalated", False)
     ck.run_gen("strconsts")
     ck.run_gen("loops")
     ck.prove(exes=["drv_C35"])
     drv = Driver("drv_C35")
     ck.rule = ("inputs: valid generated DEX/AXML/ARSC/APK files, shipped files of tests/data (by magic), crafted files "
                "(unterminated string, huge counts, zero-size/self-referential/oversized chunks, dummy data, EOCD and signing-block "
-               "fields), and seeded byte mutations/truncations of all of them (DEX mutants mostly with repaired checksum); each "
+               "fields), pathological names for the regex engines (runs of 20-64 separator / class-boundary characters followed by an "
+               "invalid character, as element / attribute names and values, zip entry names, resource and class names), "
+               "and seeded byte mutations/truncations of all of them (DEX mutants mostly with repaired checksum); each "
                "parsed under a CPU-time limit of 10 s + 1 s per 20 kB. distinct = distinct (parser, bytes); non-trivial = "
                "the parse got past the magic/checksum test or is a crafted file")
     tie(ck, drv)
@@ -671,11 +760,17 @@ def run(ck: Check):
                 tasks.append((c["kind"], data, cpu_limit(len(data))))
                 meta.append({"kind": c["kind"], "hex": c["hex"], "name": "corpus:" + fn})
     ncorpus = len(tasks)
+    pt, pm, pskip = patho_tasks(ck, big)
+    tasks += pt
+    meta += pm
+    npatho = len(pt)
     for name, (kind, data) in sorted(bases.items()):
         tasks.append((kind, data, cpu_limit(len(data))))
         meta.append({"kind": kind, "base": name, "edits": []})
     rng = random.Random(f"C35-mut/{ck.seed}")
-    total = 5000 if ck.quick else 300000
+    total = (5000 if ck.quick else 300000) + npatho
+    if ck.quick and big:
+        total += 15000                        # escalated: a pinned function changed
     names = sorted(bases)
     weights = [3 if n.startswith("crafted") or n.startswith("gen") else (1 if bases[n][0] != "apk" else 0.3) for n in names]
     while len(tasks) < total:
@@ -688,7 +783,7 @@ def run(ck: Check):
     nproc = min(16, os.cpu_count() or 4)
     t0 = time.time()
     # batches: once three timeouts were seen the search has its failing inputs; the rest is skipped
-    res, BATCH = [], 400
+    res, BATCH = [], 200
     for lo in range(0, len(tasks), BATCH):
         res += run_pool(tasks[lo:lo + BATCH], nproc, wall_guard=3600)
         if sum(1 for o, _c in res if o == "timeout") >= 3:
@@ -705,7 +800,7 @@ def run(ck: Check):
             slow.append((cpu, i))
     nfail = 0
     for i, (out, cpu) in enumerate(res):
-        if out != "timeout":
+        if out != "timeout" or nfail >= 3:
             continue
         kind, data, limit = tasks[i]
         out2, cpu2 = run_single(kind, data, 2 * limit)     # confirm alone, twice the limit
@@ -713,10 +808,27 @@ def run(ck: Check):
             ck.notes.append(f"slow but finished when re-run alone: {meta[i].get('base', meta[i].get('name'))} {cpu2:.1f}s cpu")
             continue
         nfail += 1
-        if nfail > 3:
-            continue
         case = dict(meta[i])
-        if "edits" in case and len(case["edits"]) > 1:      # reduce the edit list greedily
+        if "patho" in case:                                 # shorten the run while the parse still exceeds the limit
+            spec = dict(case["patho"])
+            for _ in range(3):
+                k2 = spec["k"] // 2
+                unit = spec["unit"]
+                name = spec["prefix"] + (unit * ((k2 + len(unit) - 1) // len(unit)))[:k2] + spec["suffix"]
+                d2 = patho_doc(kind, name)
+                o, _c = run_single(kind, d2, cpu_limit(len(d2)))
+                if o != "timeout":
+                    break
+                spec["k"], data = k2, d2
+            case["patho"] = spec
+            if kind == "apk":                               # the manifest alone?
+                unit = spec["unit"]
+                name = spec["prefix"] + (unit * ((spec["k"] + len(unit) - 1) // len(unit)))[:spec["k"]] + spec["suffix"]
+                d2 = patho_doc("axml", name)
+                o, _c = run_single("axml", d2, cpu_limit(len(d2)))
+                if o == "timeout":
+                    case["kind"], kind, data = "axml", "axml", d2
+        elif "edits" in case and len(case["edits"]) > 1:    # reduce the edit list greedily
             edits = list(case["edits"])
             base = bases[case["base"]][1]
             for e in list(edits):
@@ -737,7 +849,8 @@ def run(ck: Check):
              distinct=[(t[0], hash(t[1])) for t in tasks],
              samples=[{"base": meta[i].get("base", meta[i].get("name")), "edits": meta[i].get("edits", [])[:3], "outcome": res[i][0],
                        "cpu_s": round(res[i][1], 3)} for i in (ncorpus, len(tasks) // 2, len(tasks) - 1)],
-             dist=dict(outcomes, bases=len(bases), crafted=len(cr), corpus_cases=ncorpus, pool_wall_s=round(wall, 1),
+             dist=dict(outcomes, bases=len(bases), crafted=len(cr), corpus_cases=ncorpus, pathological_inputs=npatho,
+                       pathological_skipped=pskip, escalated=bool(getattr(ck, 'escalated', False)), pool_wall_s=round(wall, 1),
                        max_cpu_s=round(max(c for _o, c in res), 2)))
     if slow:
         slow.sort(reverse=True)
